@@ -130,6 +130,21 @@ BodyViol(e) ==
           \cup (IF \E i \in DOMAIN O.accept : O.accept[i][2] # 0
                 THEN {V("C07", "accepting a candidate makes validation report an unexpected or surplus item: "
                               \o O.accept[CHOOSE i \in DOMAIN O.accept : O.accept[i][2] # 0][1])} ELSE {})
+   \* the cursor is inside the type of an existing block: the typed text is the part of the type in front of the cursor
+   \* (whether the type of that very block is offered although the block is there is left open)
+   ELSE IF C.kind = "type" THEN
+     LET pa == At(S, D, SubSeq(C.path, 1, Len(C.path) - 1), FALSE) IN
+     LET ty == pa.body[C.path[Len(C.path)]].type IN
+     \* (on the type of a block the schema does not know the decoder answers "unknown block type": nothing is asserted there)
+     IF pa.opaque \/ pa.schema = Nil \/ ~Has(pa.schema.blocks, ty) THEN {}
+     ELSE IF O.cstatus # "ok" THEN {V("C07", "body completion failed: " \o O.cstatus)}
+     ELSE LET exp == CandP(pa.schema, pa.body, C.prefix)
+              open == CandOpen(pa.schema, pa.body, C.prefix) \cup {ty}
+              notOffered == (exp \ open) \ ToSet(O.cands)
+              notAllowed == ToSet(O.cands) \ (exp \cup open) IN
+          (IF notOffered # {} THEN {V("C07", "candidate not offered (cursor inside a block type): " \o (CHOOSE c \in notOffered : TRUE))} ELSE {})
+          \cup (IF notAllowed # {} THEN {V("C07", "candidate offered that the effective schema does not allow: " \o (CHOOSE c \in notAllowed : TRUE))} ELSE {})
+          \cup (IF ~StrictlySorted(O.cands) THEN {V("C07", "candidates not sorted or duplicated")} ELSE {})
    ELSE IF C.kind = "label" /\ at.block # Nil /\ C.index + 1 <= Len(at.block.labels) /\ at.block.labels[C.index + 1].comp THEN
      IF O.cstatus # "ok" THEN {V("C07", "label completion failed: " \o O.cstatus)}
      ELSE LET exp == LabelCandP(at.block, C.index, C.prefix) IN
